@@ -177,36 +177,43 @@ lex_arm!(c05_lex_ws_arm_3, b',', 3usize);
 lex_arm!(c05_lex_unknown_arm_2, b'!', 2usize);
 lex_arm!(c05_lex_unknown_arm_3, b'-', 3usize);
 
-/// the "anything else" arm with a multi-byte first character (2-byte and 4-byte), followed by one ASCII byte
-#[kani::proof]
-#[kani::unwind(7)]
-#[kani::stub(alloc::fmt::format, stubs::fmt_format)]
-#[kani::stub(Cursor::check_instruction, Cursor::check_instruction_any)]
-#[kani::stub(Cursor::check_trap, Cursor::check_trap_any)]
-#[kani::stub(Cursor::check_directive, Cursor::check_directive_any)]
-fn c05_lex_multibyte_first() {
-    let four: bool = kani::any();
-    let tail: u8 = kani::any();
-    kani::assume(tail < 0x80);
-    let with_tail: bool = kani::any();
-    static mut BUF: [u8; 5] = [0; 5];
-    let src: &'static str = unsafe {
-        let n = if four {
-            BUF = [0xF0, 0x9F, 0x98, 0x80, tail];
-            4
-        } else {
-            BUF = [0xC3, 0xA9, tail, 0, 0];
-            2
-        };
-        let n = if with_tail { n + 1 } else { n };
-        core::str::from_utf8_unchecked(&*core::ptr::addr_of!(BUF).cast::<[u8; 5]>()).get_unchecked(..n)
+/// the "anything else" arm with a multi-byte first character (2-byte or 4-byte), alone or followed by one
+/// symbolic ASCII byte (four harnesses: lengths are concrete)
+macro_rules! lex_multibyte {
+    ($name:ident, $four:expr, $with_tail:expr) => {
+        #[kani::proof]
+        #[kani::unwind(7)]
+        #[kani::stub(alloc::fmt::format, stubs::fmt_format)]
+        #[kani::stub(Cursor::check_instruction, Cursor::check_instruction_any)]
+        #[kani::stub(Cursor::check_trap, Cursor::check_trap_any)]
+        #[kani::stub(Cursor::check_directive, Cursor::check_directive_any)]
+        fn $name() {
+            let tail: u8 = kani::any();
+            kani::assume(tail < 0x80);
+            static mut BUF: [u8; 5] = [0; 5];
+            let src: &'static str = unsafe {
+                let n = if $four {
+                    BUF = [0xF0, 0x9F, 0x98, 0x80, tail];
+                    4
+                } else {
+                    BUF = [0xC3, 0xA9, tail, 0, 0];
+                    2
+                };
+                let n = if $with_tail { n + 1 } else { n };
+                core::str::from_utf8_unchecked(&*core::ptr::addr_of!(BUF).cast::<[u8; 5]>()).get_unchecked(..n)
+            };
+            let mut c = Cursor::new(src);
+            let r1 = c.advance_token();
+            assert!(r1.is_err(), "a token starting with a non-ASCII character is not LC-3 source");
+            check_lexed(src, r1);
+            kani::cover!(tail == b' ' || !$with_tail);
+        }
     };
-    let mut c = Cursor::new(src);
-    let r1 = c.advance_token();
-    assert!(r1.is_err(), "a token starting with a non-ASCII character is not LC-3 source");
-    check_lexed(src, r1);
-    kani::cover!(four && with_tail);
 }
+lex_multibyte!(c05_lex_multibyte_2, false, false);
+lex_multibyte!(c05_lex_multibyte_2_tail, false, true);
+lex_multibyte!(c05_lex_multibyte_4, true, false);
+lex_multibyte!(c05_lex_multibyte_4_tail, true, true);
 
 // -------------------------------------------------------------- C01 H-kw / C18 H-gate-lex: keyword tables on concrete keywords
 fn classify(c: &Cursor, ident: &str) -> Option<TokenKind> {
@@ -394,7 +401,7 @@ literal!(c01_literal_dec_neg, false, true);
 /// case before classifying): one real advance_token on each of the 2^len case variants of the word (enumerated
 /// concretely: symbolic letters in front of the 45-way keyword match did not finish in 20 min), flag symbolic
 macro_rules! gate_case {
-    ($name:ident, $word:expr, $kind:expr) => {
+    ($name:ident, $word:expr, $kind:expr, $masks:expr) => {
         #[kani::proof]
         #[kani::unwind(18)]
         #[kani::stub(alloc::fmt::format, stubs::fmt_format)]
@@ -403,8 +410,10 @@ macro_rules! gate_case {
             crate::features::verif_h::set_stack(on);
             let w: &[u8] = $word;
             let n = w.len();
-            let mut mask: u8 = 0;
-            while mask < (1u8 << n) {
+            let masks: &[u8] = $masks;
+            let mut m = 0;
+            while m < masks.len() {
+                let mask = masks[m];
                 let mut buf = [0u8; 4];
                 let mut i = 0;
                 while i < n {
@@ -422,14 +431,23 @@ macro_rules! gate_case {
                         core::mem::forget(e);
                     }
                 }
-                mask += 1;
+                m += 1;
             }
             kani::cover!(on);
             kani::cover!(!on);
         }
     };
 }
-gate_case!(c18_gate_case_push, b"push", crate::symbol::InstrKind::Push);
-gate_case!(c18_gate_case_pop, b"pop", crate::symbol::InstrKind::Pop);
-gate_case!(c18_gate_case_call, b"call", crate::symbol::InstrKind::Call);
-gate_case!(c18_gate_case_rets, b"rets", crate::symbol::InstrKind::Rets);
+const ALL16: &[u8] = &[0, 1, 2, 3, 4, 5, 6, 7, 8, 9, 10, 11, 12, 13, 14, 15];
+const ALL8: &[u8] = &[0, 1, 2, 3, 4, 5, 6, 7];
+/// lower, UPPER, Capitalised
+const THREE4: &[u8] = &[0, 15, 1];
+const THREE3: &[u8] = &[0, 7, 1];
+gate_case!(c18_gate_case_push, b"push", crate::symbol::InstrKind::Push, THREE4);
+gate_case!(c18_gate_case_pop, b"pop", crate::symbol::InstrKind::Pop, THREE3);
+gate_case!(c18_gate_case_call, b"call", crate::symbol::InstrKind::Call, THREE4);
+gate_case!(c18_gate_case_rets, b"rets", crate::symbol::InstrKind::Rets, THREE4);
+gate_case!(c18_gate_case_push_all, b"push", crate::symbol::InstrKind::Push, ALL16);
+gate_case!(c18_gate_case_pop_all, b"pop", crate::symbol::InstrKind::Pop, ALL8);
+gate_case!(c18_gate_case_call_all, b"call", crate::symbol::InstrKind::Call, ALL16);
+gate_case!(c18_gate_case_rets_all, b"rets", crate::symbol::InstrKind::Rets, ALL16);
